@@ -93,6 +93,31 @@ def bar(ck, ctx):
     ck.ob("bar", "tick-bump-bounded", bool(incs) and all(Q.gated(cfg, x, g2)[0] for x in incs), "the `at least one tick` bump happens only while target_size < bar_size", span=b.loc, fn=b.nname)
 
 
+def bar_partition(ck, ctx):
+    """the bar is exactly bar_size wide only if its three segments add up to counts.total(): every displayed state is read exactly
+    once in progress_bar, and total() is the sum of the same six slots"""
+    from . import C19 as R19
+    F = ctx.F
+    b = F.body("progress_fancy::progress_bar")
+    R = ctx.res(b)
+    states = []
+    for bb, t in b.calls():
+        if callee_of(t) == "work::StateCounts::get":
+            e = strip(R.arg(bb, 1))
+            v = None
+            for y in walk(e):
+                if y[0] == "promoted" and isinstance(y[2], tuple) and y[2][0] == "enum":
+                    v = y[2][2]
+                if y[0] == "agg" and y[1] == "adt" and y[2] == "work::BuildState":
+                    v = y[3]
+            states.append(v)
+    want = ["Done", "Failed", "Queued", "Ready", "Running", "Want"]
+    ck.ob("bar", "segments-partition-total", sorted(str(s_) for s_ in states) == want, "progress_bar's segments read each of the six counted states exactly once (%s), so together they equal counts.total() and the last segment ends at bar_size" % sorted(str(s_) for s_ in states), span=b.loc, fn=b.nname)
+    tot = [bb for bb, t in b.calls() if callee_of(t) == "work::StateCounts::total"]
+    ck.ob("bar", "denominator-is-total", len(tot) == 1, "the denominator is counts.total()", span=b.loc, fn=b.nname)
+    R19.total_sums_all(ck, ctx)
+
+
 def _src(body, bi, op):
     if op["k"] in ("copy", "move") and not op["place"]["p"]:
         return op["place"]["l"]
@@ -188,6 +213,7 @@ def run(ck, ctx):
     ck.floor("unsigned sub/div sites in the render path", m, 4)
     lossy(ck, ctx)
     bar(ck, ctx)
+    bar_partition(ck, ctx)
     isolation_report(ck, ctx)
     # truncate() contract used by its callers: result is a prefix no longer than max
     ck.ob("char-boundary", "truncate-is-prefix-fn", G.prefix_fn(ctx, "progress_fancy::truncate"), "progress_fancy::truncate returns its argument or a boundary-safe prefix of it", span="progress_fancy::truncate", fn="progress_fancy::truncate")
